@@ -1342,11 +1342,31 @@ func (c *compiler) checkIdentifierLName(name unistring.String, offset int) {
 func (c *compiler) enterDummyMode() (leaveFunc func()) {
 	savedBlock, savedProgram := c.block, c.p
 	if savedBlock != nil {
-		c.block = &block{
-			typ:      savedBlock.typ,
-			label:    savedBlock.label,
-			outer:    savedBlock.outer,
-			breaking: savedBlock.breaking,
+		// Copy the whole chain: break/continue statements in the discarded code register jump locations
+		// (offsets into the dummy program) with their target blocks and with every scope block on the way.
+		copies := make(map[*block]*block)
+		var last *block
+		for b := savedBlock; b != nil; b = b.outer {
+			nb := &block{
+				typ:   b.typ,
+				label: b.label,
+			}
+			copies[b] = nb
+			if last == nil {
+				c.block = nb
+			} else {
+				last.outer = nb
+			}
+			last = nb
+		}
+		for b, nb := range copies {
+			if b.breaking != nil {
+				if bc := copies[b.breaking]; bc != nil {
+					nb.breaking = bc
+				} else {
+					nb.breaking = b.breaking
+				}
+			}
 		}
 	}
 	c.p = &Program{
